@@ -1,4 +1,4 @@
-CONSTANTS MaxN = 5 FMaxN = 5
+CONSTANTS MaxN = 5 FMaxN = 5 RingN = {5, 6, 7, 8}
 INIT Init
 NEXT Next
 INVARIANT Emitted
